@@ -116,6 +116,7 @@ fn search(unit: &str, tag: &str, tier: &str) -> Option<Value> {
         "c04_pager" | "c02_itemset" | "c02_add" => if tag.starts_with("C15") { c15::search(tag, tier) } else if tag.starts_with("C16") { c16::search(tag, tier).or_else(|| c04::search(tag, tier)) } else { c04::search(tag, tier).or_else(|| c02::search(tag, tier)) },
         "c16_gc" | "c20_states" if tag.starts_with("C16") => c16::search(tag, tier),
         "c16_gc" if tag.starts_with("C15") => c15::search_tables(tier),
+        "c16_gc" => c02::search(tag, tier).or_else(|| c16::search(tag, tier)),
         "c07_lr" | "c04_next" => c07::search(tag, tier),
         "c06_moves" | "c06_dijkstra" | "c06_cpct" | "c06_rank" | "c05_apply" | "c05_cactus" | "c05_traverse" => if tag.starts_with("C07") { c07::search(tag, tier).or_else(|| c06::search(tag, tier)) } else { c06::search(tag, tier).or_else(|| c07::search(tag, tier)) },
         "c12_header" => c12::search(tag, tier),
